@@ -24,6 +24,18 @@ SellForBuy(rIn, rOut, out) ==
    ELSE LET kAdj == (rIn ** rOut) ** K2
             balAdj == (rOut -- out) ** K1
         IN (((kAdj // balAdj) -- (rIn ** K1)) // (K1 -- Fee)) ++ One
+\* a trade through the pool (swap version 2): a thousandth of what the trader pays, rounded up, is burned; the rest enters the pool.
+\*   selling `in`:  the pool receives net = in - Burned(in) and pays BuyForSell(.., net)
+\*   buying `out`:  the pool needs x = SellForBuy(.., out); the trader pays x + ceil(x/999), of which Burned(..) = ceil(x/999) is burned
+Burned(a) == (a ++ Nat2A(999)) // K1
+Ceil999(x) == (x ++ Nat2A(998)) // Nat2A(999)
+SellTrade(rIn, rOut, in) ==
+   LET net == in -- Burned(in)
+       out == IF Zero \prec net THEN BuyForSell(rIn, rOut, net) ELSE NoTrade
+   IN [ok |-> out # NoTrade, pay |-> in, net |-> net, out |-> out, burned |-> Burned(in)]
+BuyTrade(rIn, rOut, out) ==
+   LET x == SellForBuy(rIn, rOut, out)
+   IN [ok |-> x # NoTrade /\ Zero \prec x, pay |-> x ++ Ceil999(x), net |-> x, out |-> out, burned |-> Ceil999(x)]
 \* adding liquidity: pool tokens minted and the amount of the second coin taken, for a0 of the first coin
 MintFor(r0, r1, sup, a0) == [liq |-> (sup ** a0) // r0, a1 |-> (a0 ** r1) // r0]
 \* removing liquidity
